@@ -111,7 +111,10 @@ def _take_unit_offline(ss, pick, info):
                 sg = ss.StaticGen.idx2model(m.gen.v[i])
             except KeyError:
                 continue
-            if sg.class_name != 'Slack':
+            # a cross-compound governor (IEEEG1.syn2) ties two machines into one unit: not taken apart
+            compound = any(hasattr(g, 'syn2') and any(m.idx.v[i] in (a, b) and b is not None for a, b in zip(g.syn.v, g.syn2.v))
+                           for g in ss.TurbineGov.models.values() if g.n)
+            if sg.class_name != 'Slack' and not compound:
                 units.append((name, i, sg))
     if not units:
         return
